@@ -626,7 +626,9 @@ def build_optimized_tables(
                         break
                 else:
                     ut = UniqueTableReferenceT(
-                        name=f"FE_TF{tensor_n}",
+                        # As for the FE* tables, the rule id keeps the names of the
+                        # factor tables of different quadrature rules apart
+                        name=f"FE_TF{tensor_n}_Q{quadrature_rule.id()}",
                         values=sub_tbl,
                         ttype="tensor_factor",
                         is_permuted=False,
